@@ -12,8 +12,10 @@ import Edn.Proofs.AllocSimAux1
 namespace Edn.Proofs.AllocSim
 open Edn.Model Edn.Proofs.AllocBasic Edn.Proofs Edn.Proofs.AllocNumber
 
+/-- an error that is neither the end of input between top-level forms nor the model's "out of
+    fuel" -/
 def isErr : Res → Prop
-  | .err _ _ => True
+  | .err e _ => e.eofTop = false ∧ e.fuelOut = false
   | _ => False
 
 structure Leaf (x : ACtx) (r : Res × ASt) (a : ASt) (r0 : Res) : Prop where
@@ -46,7 +48,7 @@ theorem leaf_request (x : ACtx) (a : ASt) (r0 : Res) (stE : St) :
     simp only
     have hf := request_fr x .arena a 0
     cases hr : (a.request x.orc .arena).1
-    · refine ⟨by simpa [hr] using hf, Or.inr (by simp [isErr]), fun hx ha => ?_⟩
+    · refine ⟨by simpa [hr] using hf, Or.inr ⟨rfl, rfl⟩, fun hx ha => ?_⟩
       have := request_nofault x hx .arena a 0 (fun _ => ha)
       rw [hr] at this; cases this
     · exact ⟨by simpa [hr] using hf, Or.inl (by simp), fun _ _ => by simp⟩
@@ -83,7 +85,7 @@ def tbMatch (start : Nat) (o : TbOutA) (p : Except TbErr (List TbLine × Bytes))
   | .error (.eofInLine s) => o = .fail (mkErr .invalidString) s
 
 def tbFail : TbOutA → Prop
-  | .fail _ _ => True
+  | .fail e _ => e.eofTop = false ∧ e.fuelOut = false
   | _ => False
 
 theorem grow_fr (x : ACtx) (n : Nat) (buf : TbBuf) (a : ASt) : Fr x a (buf.grow x n a).2 := by
@@ -128,7 +130,7 @@ theorem tbLinesA_spec (x : ACtx) (start : Nat) : ∀ (f : Nat) (s : Bytes) (acc 
       rw [hg] at h1 n1
       cases ob with
       | none =>
-        refine ⟨h1.trans (release_fr x buf a1), Or.inr trivial, fun hx => ?_⟩
+        refine ⟨h1.trans (release_fr x buf a1), Or.inr ⟨rfl, rfl⟩, fun hx => ?_⟩
         exact absurd (n1 hx) (by simp)
       | some buf1 =>
         simp only
@@ -144,7 +146,7 @@ theorem tbLinesA_spec (x : ACtx) (start : Nat) : ∀ (f : Nat) (s : Bytes) (acc 
           rw [hq] at h2 n2
           cases o with
           | none =>
-            refine ⟨h1.trans (h2.trans (release_fr x buf1 a2)), Or.inr trivial, fun hx => ?_⟩
+            refine ⟨h1.trans (h2.trans (release_fr x buf1 a2)), Or.inr ⟨rfl, rfl⟩, fun hx => ?_⟩
             exact absurd (n2 hx) (by simp)
           | some i =>
             simp only
@@ -170,7 +172,7 @@ theorem tb_finish (x : ACtx) (st : St) (start : Nat) (ls : List TbLine) (rest : 
   have g1 := request_fr x .arena a2 0
   cases hr1 : (a2.request x.orc .arena).1
   · simp only [Bool.not_false, ↓reduceIte]
-    refine ⟨g1.trans (release_fr x buf _), Or.inr trivial, fun hx ha => ?_⟩
+    refine ⟨g1.trans (release_fr x buf _), Or.inr ⟨rfl, rfl⟩, fun hx ha => ?_⟩
     have := request_nofault x hx .arena a2 0 (fun _ => ha)
     rw [hr1] at this; cases this
   · simp only [Bool.not_true, Bool.false_eq_true, ↓reduceIte]
@@ -178,7 +180,7 @@ theorem tb_finish (x : ACtx) (st : St) (start : Nat) (ls : List TbLine) (rest : 
     have g12 := g1.trans ((release_fr x buf _).trans g2)
     cases hr2 : ((buf.release (a2.request x.orc .arena).2).request x.orc .arena).1
     · simp only [Bool.not_false, ↓reduceIte]
-      refine ⟨g12, Or.inr trivial, fun hx ha => ?_⟩
+      refine ⟨g12, Or.inr ⟨rfl, rfl⟩, fun hx ha => ?_⟩
       have := request_nofault x hx .arena (buf.release (a2.request x.orc .arena).2) 0
         (fun _ => (g1.trans (release_fr x buf _)).arena.trans ha)
       rw [hr2] at this; cases this
@@ -195,7 +197,7 @@ theorem readTextBlockA_leaf (x : ACtx) (st : St) (a : ASt)
   rcases hq0 : a.rawAlloc x.orc .malloc with ⟨o, a1⟩
   rw [hq0] at h0 n0
   cases o with
-  | none => exact ⟨h0, Or.inr trivial, fun hx _ => absurd (n0 hx) (by simp)⟩
+  | none => exact ⟨h0, Or.inr ⟨rfl, rfl⟩, fun hx _ => absurd (n0 hx) (by simp)⟩
   | some arr =>
     simp only
     obtain ⟨h1, f1, n1⟩ := tbLinesA_spec x (x.ctx.pos st.rest) ((st.rest.drop 4).length + 2) (st.rest.drop 4) [] { arr := arr } a1
@@ -206,7 +208,24 @@ theorem readTextBlockA_leaf (x : ACtx) (st : St) (a : ASt)
     cases out with
     | fail e rest =>
       simp only
-      refine ⟨h01, Or.inr trivial, fun hx _ => ?_⟩
+      have hnt : e.eofTop = false ∧ e.fuelOut = false := by
+        rcases f1 with f1 | f1
+        · cases hp : tbLines ((st.rest.drop 4).length + 2) (st.rest.drop 4) [] with
+          | error er =>
+            rw [hp] at f1
+            cases er with
+            | missingCloser =>
+              simp only [tbMatch, TbOutA.fail.injEq] at f1
+              rw [f1.1]; exact ⟨rfl, rfl⟩
+            | eofInLine s =>
+              simp only [tbMatch, TbOutA.fail.injEq] at f1
+              rw [f1.1]; exact ⟨rfl, rfl⟩
+          | ok q =>
+            rw [hp] at f1
+            obtain ⟨buf, hb⟩ := f1
+            cases hb
+        · exact f1
+      refine ⟨h01, Or.inr hnt, fun hx _ => ?_⟩
       have hm := n1 hx
       cases hp : tbLines ((st.rest.drop 4).length + 2) (st.rest.drop 4) [] with
       | error er =>
@@ -273,11 +292,11 @@ theorem numCreateA_leaf (x : ACtx) (st : St) (a : ASt) (v : NumVal) (p : Bytes) 
   · cases h1 : (a.request x.orc .arena).1
     · right
       rw [numCreateA_refused x st a v p validate h1]
-      exact trivial
+      exact ⟨rfl, rfl⟩
     · unfold numCreateA numRes finishNumK finishNum
       simp only [h1, Bool.not_true, Bool.false_eq_true, ↓reduceIte]
       cases (floatHeapA x (numNeedsHeap x.ctx.cfg v (slice st.rest p)) (a.request x.orc .arena).2).1
-      · exact Or.inr trivial
+      · exact Or.inr ⟨rfl, rfl⟩
       · simp only [Bool.not_true, Bool.false_eq_true, ↓reduceIte]
         cases validate <;> cases numDelimOk p <;> simp [isErr, numErrA]
   · exact numCreateA_granted x st a v p validate (request_nofault x hx .arena a 0 (fun _ => ha)) (hx _)
